@@ -8,6 +8,7 @@
 #define VERIF_GUARD_HPP
 
 #include <csetjmp>
+#include <exception>
 #include <csignal>
 #include <cstdio>
 #include <cstdlib>
@@ -65,7 +66,16 @@ inline void on_signal(int sig) {
 	siglongjmp(env(), 1);
 }
 
+inline void on_terminate() {
+	// an exception met a noexcept boundary (or was not caught): record and return to the harness
+	if(!armed()) { char const msg[] = "guard: std::terminate outside a guarded region\n"; (void)!write(2, msg, sizeof(msg) - 1); announce(); _exit(135); }
+	last().kind = "terminate";
+	last().expr = ""; last().file = ""; last().line = 0;
+	siglongjmp(env(), 1);
+}
+
 inline void install() {
+	std::set_terminate(on_terminate);
 	struct sigaction sa;
 	std::memset(&sa, 0, sizeof(sa));
 	sa.sa_handler = on_signal;
